@@ -195,6 +195,6 @@ let () =
       let outs = List.sort_uniq compare (List.map show finals) in
       if List.mem observed outs then Printf.printf "%s MEMBER\n" id
       else Printf.printf "%s NOT-REACHABLE observed={%s} model={%s}\n" id observed (String.concat " | " outs)
-    | id :: ("CC" | "PX") :: _ -> Printf.printf "%s UNJUDGED\n" id
+    | id :: ("CC" | "PX" | "HUGE" | "SX") :: _ -> Printf.printf "%s UNJUDGED\n" id
     | [] -> ()
     | _ -> Printf.printf "BADLINE %s\n" l)
